@@ -1,3 +1,19 @@
+// F15 demo (properties C07): opening a damaged *legacy* (pre 0.11) database file aborts the process.
+//
+// Place this file at:  agdb/tests/legacy_demo.rs   (uses the repo's own tests/test_db_prior_0_11_0.agdb)
+// Run:                 cargo test -p agdb --offline --test legacy_demo -- --nocapture --test-threads=1
+//                      LEGACY_FREE=1 cargo test ... legacy_conversion_huge_db_id_file   (move_to_end variant)
+//
+// One 8-byte change (file offset 2704: key 1 of the legacy `values` multi-map, 0100000000000000 -> 0000000000200000,
+// i.e. DbId(2^45)).  Observed on /repo HEAD e6a3b5b (debug build, no ulimit):
+//   DbFile::new / DbMemory::new -> "memory allocation of 281474976710664 bytes failed" (abort) in
+//     Storage::enlarge_at_end (storage.rs:475) <- enlarge_value <- resize_value <- DbVecData::reallocate <- VecImpl::reserve
+//     <- VecImpl::resize <- DbKeyValues::insert_value (db_key_value.rs:55) <- legacy::convert_to_current_version (db.rs:1447)
+//   with LEGACY_FREE=1 (record 7 at offset 2272 additionally turned into a free region, index 07.. -> 00..):
+//     "memory allocation of 281474976710672 bytes failed" in Storage::move_to_end (storage.rs:538, Vec::resize)
+// Any file whose record 1 is 40..47 bytes long takes the legacy conversion path, so this is reachable from any
+// damaged file, not only from genuine old databases.
+//
 // Legacy (pre 0.11) database whose `values` multi-map contains a huge DbId key: opening the file runs
 // legacy::convert_to_current_version -> DbKeyValues::insert_value(db_id.as_index()) -> DbVec::resize(index + 1)
 // -> Storage::resize_value(8 + 8 * (index + 1)) -> enlarge_* -> vec![0; new_size - old_size].
